@@ -224,7 +224,7 @@ def reports_nothing(case, r, written):
     return len(doc) == 0
 
 
-@PROP.given('junk-is-invisible', lambda tier: case_strategy(tier), quick=300, thorough=6000, shards_quick=8)
+@PROP.given('junk-is-invisible', lambda tier: case_strategy(tier), quick=800, thorough=8000, shards_quick=8)
 def junk_is_invisible(case, note):
     good_files = {good_name(i): M.encode(p) for i, p in enumerate(case['good'])}
     what = 'peltool %s%s' % (case['mode'], ' -x' if case['hex'] else '')
